@@ -387,7 +387,10 @@ def run(ctx, chk):
                               floor=100)
 
     # ---- R7.9 branch-free selects (cmov / cswap / cneg) choose between the values they mix ------------------------------
-    knownbits.select_idiom_rule(prog, chk, "R7.9", ("crypto_core/ed25519/", "crypto_scalarmult/"), floor=3)
+    # (no instance floor: on x86-64 fe25519_cmov / cneg are inline assembly, the C spelling of the Ed25519 units only exists in the
+    # portable configuration of the thorough tier; natively the instances come from the X25519 ladder's cswap, which C05 / C10 own -
+    # a ladder without cswap must not turn this check into analysis-broken)
+    knownbits.select_idiom_rule(prog, chk, "R7.9", ("crypto_core/ed25519/", "crypto_scalarmult/"), floor=0)
 
     # ---- R7.6 (E11) which bits of the encoding the canonical-form predicates look at -------------------------
     # ge25519_is_canonical tests y < p: bit 255 is the sign of x and must not take part (an encoding with the sign
